@@ -4,6 +4,14 @@ quick/thorough = (number of cases, maxdim)."""
 def S(cfg, monitor, args, quick, thorough, **kw):
     d = dict(cfg=cfg, monitor=monitor, args=list(args), quick=quick, thorough=thorough)
     d.update(kw)
+    if "omp" in cfg:
+        # several worker processes x several OpenMP threads share 16 cores: threads that spin at barriers (libgomp / libomp default)
+        # make oversubscribed stages 10-100x slower; a passive wait policy changes nothing about what is computed
+        env = dict(d.get("env") or {})
+        env.setdefault("OMP_WAIT_POLICY", "passive")
+        env.setdefault("GOMP_SPINCOUNT", "0")
+        env.setdefault("KMP_BLOCKTIME", "0")
+        d["env"] = env
     return d
 
 MODEL = ["independent byte-per-entry GF(2) reference model (harness/ref.c) and raw-layout conversion (harness/hx.c) are correct",
@@ -29,6 +37,7 @@ PROPS["C01"] = dict(
         # wide mode (see FUNC): dimensions <= 100 or > 512, second and later rounds of the 8-way unrolled word loops
         S("small-asan", "func", ["--fam", "mul", "--wide", "1"], (300, 1100), (3000, 1400)),
         S("small-nosse-ts-asan", "func", ["--fam", "mul", "--wide", "1"], (150, 1100), (1500, 1400)),
+        S("small-msan", "func", ["--fam", "mul"], (500, 420), (8000, 1000)),
     ],
     require_tags={"quick": ["strassen_depth=2", "cubic", "m4rm", "squaring"], "thorough": ["strassen_depth=3", "cubic", "m4rm", "squaring"]},
 )
@@ -49,6 +58,8 @@ def FUNC(fam, q_small, t_small, q_host=None, t_host=None, q_ts=None, t_ts=None, 
     # 8 words are left behind; the scalar (no-SSE2) variants of those loops get their own stage
     st.append(S("small-asan", "func", ["--fam", fam, "--wide", "1"], (max(240, q_small[0] // 24), 1100), (t_small[0] // 24, 1400)))
     st.append(S("small-nosse-ts-asan", "func", ["--fam", fam, "--wide", "1"], (max(120, q_small[0] // 48), 1100), (t_small[0] // 48, 1400)))
+    # MemorySanitizer build: a value clause can hold by luck when a result depends on an uninitialised scalar that happens to be 0
+    st.append(S("small-msan", "func", ["--fam", fam], (max(300, q_small[0] // 8), q_small[1]), (t_small[0] // 8, t_small[1])))
     if extra:
         st.extend(extra)
     return st
@@ -360,22 +371,22 @@ def _c16_stages0(tier):
     st = []
     nthr = [1, 2, 3, 4, 5, 8, 16] if tier == "thorough" else [1, 2, 3, 16]
     for t in nthr:
-        for nested in ((1, 2) if (tier == "thorough" and t in (2, 3, 16)) or t == 3 else (1,)):
+        for nested in ((1, 2) if tier == "thorough" or t == 3 else (1,)):
             env = {"OMP_NUM_THREADS": str(t), "OMP_MAX_ACTIVE_LEVELS": str(nested), "OMP_NESTED": "true" if nested > 1 else "false"}
-            st.append(S("host-gomp-asan", "func", ["--fam", OMP_FAM, "--mindim", "1100"], (14, 1500), (100, 2200), env=env, timeout=900))
+            st.append(S("host-gomp-asan", "func", ["--fam", OMP_FAM, "--mindim", "1100"], (36, 1500), (200, 2400), env=env, timeout=900))
     # small triple: the recursion (Strassen inside the four mp sections) is deep here
     for t in ([2, 4, 7] if tier == "thorough" else [4]):
-        st.append(S("small-gomp-asan", "func", ["--fam", OMP_FAM], (150, 700), (2500, 1300), env={"OMP_NUM_THREADS": str(t)}, timeout=900))
+        st.append(S("small-gomp-asan", "func", ["--fam", OMP_FAM], (400, 700), (4000, 1300), env={"OMP_NUM_THREADS": str(t)}, timeout=900))
     # the multi-core front ends themselves (quadrant sections + remainder strips), small cutoffs so that they split
     MP = "mzd_mul_mp,mzd_addmul_mp"
     for t in ([2, 3, 4, 8, 16] if tier == "thorough" else [2, 4, 8]):
-        st.append(S("small-gomp-asan", "func", ["--ops", MP], (260, 700), (2000, 1300), env={"OMP_NUM_THREADS": str(t)}, timeout=600))
+        st.append(S("small-gomp-asan", "func", ["--ops", MP], (500, 700), (3000, 1300), env={"OMP_NUM_THREADS": str(t)}, timeout=600))
     # races inside parallel regions: clang + libomp + Archer
     for t in ([2, 4, 16] if tier == "thorough" else [4, 16]):
         env = {"OMP_NUM_THREADS": str(t), "OMP_TOOL_LIBRARIES": "/usr/lib/llvm-14/lib/libarcher.so",
                "TSAN_OPTIONS": "halt_on_error=0:ignore_noninstrumented_modules=1:report_signal_unsafe=0:history_size=4"}
-        st.append(S("host-omp-archer", "threads", ["--arg", "omp", "--fam", OMP_FAM, "--reps", "3", "--mindim", "1100"], (5, 1500), (100, 2400), env=env, timeout=900))
-        st.append(S("host-omp-archer", "threads", ["--arg", "omp", "--ops", MP, "--reps", "4", "--mindim", "300"], (6, 900), (120, 1600), env=env, timeout=900))
+        st.append(S("host-omp-archer", "threads", ["--arg", "omp", "--fam", OMP_FAM, "--reps", "3", "--mindim", "1100"], (10, 1500), (100, 2400), env=env, timeout=900))
+        st.append(S("host-omp-archer", "threads", ["--arg", "omp", "--ops", MP, "--reps", "4", "--mindim", "300"], (12, 900), (120, 1600), env=env, timeout=900))
     return st
 PROPS["C16"] = dict(
     level="exploration",
